@@ -288,11 +288,12 @@ def r6(ctx):
 
 def check(ctx):
     ctx.explanation = (
-        "Def-use facts of the vote (_choose_dialect: weight, accumulation, stable descending sort without secondary key, first-seen key "
-        "order); dominance of the dialect assignment over every yield of the common iteration path; the peek is control-dependent on 'no "
-        "dialect supplied'; call-graph rule: exactly three callers reach the one inference function; the inference path's decisions are "
-        "read off as (guard, recorded value) pairs, the gff3 key pattern through re._parser. Format routing is decided with C03.R5. Does "
-        "not decide that the full dictionary is recovered for every consistent input (string semantics).")
+        "The vote (_choose_dialect) is evaluated abstractly on small symbolic peeks; the iterator's constructor and its common iteration path "
+        "are evaluated for dialect given/None x force_dialect_check and for no/identity/rejecting transforms; create_db's hand-over is read "
+        "off the importer's constructor arguments on the abstract trace; the three entry points must reach the one inference function; what "
+        "inference records is decided by the template round trip (C07) in inferred mode, the key pattern on a separating corpus, and a "
+        "provenance rule that the parser never writes into the shared default. Format routing is decided with C03.R5. Does not decide that "
+        "the full dictionary is recovered for every consistent input beyond the templates.")
     r1(ctx)
     r2_r3(ctx)
     r5(ctx)
